@@ -312,7 +312,8 @@ def run(rep, tier, rng):
     versions1 = sorted(set(SPEC_V1_VERSIONS) | set(range(100, 200)))
     n_uid = 6 if thorough else 1
     for v in versions1 + SPEC_V2_VERSIONS:
-        for sec in SPEC_SECURITY + [None]:
+        # quick tier: every version, all security levels for the versions of the specification, one (random) level for the other 1xx numbers
+        for sec in (SPEC_SECURITY + [None] if (thorough or v in SPEC_V1_VERSIONS or v in SPEC_V2_VERSIONS) else [rng.choice(SPEC_SECURITY + [None])]):
             for k_uid in range(n_uid + 1):
                 old, new = rng.choice([None, "NONE", rand_uid(rng)]), rng.choice([None, rand_uid(rng), rand_uid(rng, 36)])
                 if k_uid == n_uid:          # every character class of the UID alphabet, always
